@@ -8,11 +8,15 @@ class C02(StdCheck):
     required_theorems = ["result_step_meets_spec", "fire_step_meets_spec", "model_trace_meets_spec_from", "model_trace_meets_spec",
                          "never_while_suppressed", "never_two", "withheld_event_kept_until_ready",
                          "release_at_first_ready_firing", "immediate_request",
-                         "handler_result_pair_partial", "handler_result_pair_counterexample"]
+                         "handler_result_pair_partial", "handler_result_pair_counterexample",
+                         "ack_trace_meets_spec", "ack_without_expiry_stays_in_force",
+                         "system_trace_meets_spec_from", "system_trace_meets_spec",
+                         "flapping_ring_is_sliding_window", "flapping_starts_only_on_state_change", "stable_object_stops_flapping"]
     technique = ("Lean 4 proof (simulation relation between property-level bookkeeping and the code's bit masks, induction over "
                  "operation sequences and over runs of the handler); correspondence by exhaustive + random differential execution of "
                  "ProcessCheckResult / FireSuppressedNotifications with real downtimes, acknowledgements, parents, authority changes, "
-                 "check intervals and next-check times")
+                 "check intervals and next-check times, a second dependency with disable_notifications on/off, acknowledgements set "
+                 "on top of each other; the acknowledgement attributes with lazy expiry and the flapping ring buffer are modelled and replayed next to the code")
     level_text = ("Machine-checked theorems that for every configuration, every start state (whatever is withheld and remembered in it) "
                   "and every finite sequence of results and handler runs under arbitrary environments (downtime, acknowledgement, "
                   "reachability, flapping toggles, pause, notification switch, active checks on/off, check interval, distance of the next "
@@ -29,16 +33,37 @@ class C02(StdCheck):
                   "seeded random interleavings (max 1..4, flapping, two downtimes, ack expiry, timer path via the pump, 12 check intervals, "
                   "moved next checks, overwritten attributes as after a restore/cluster sync), and a handler run with a result processed "
                   "inside its request callback (schedule point between the handler's unlocked read and its write); the same specification "
-                  "predicate is evaluated on the implementation's own trace")
+                  "predicate is evaluated on the implementation's own trace. 'Acknowledged' is no longer taken on trust: the two "
+                  "acknowledgement attributes with the lazy expiry inside GetAcknowledgement() and the clearing by ProcessCheckResult are "
+                  "modelled; ack_trace_meets_spec proves for every sequence of set (also on top of an acknowledgement in place) / clear / "
+                  "results / reads at non-decreasing times that IsAcknowledged() is exactly 'the newest acknowledgement is in force' (not "
+                  "cleared, not ended by a state change (normal) or the recovery (sticky), its own expiry not passed), "
+                  "system_trace_meets_spec(_from) composes this with the notification bookkeeping (no free 'acknowledged' input), and the "
+                  "driver evaluates the same predicate on every IsAcknowledged() the harness reads (clause "
+                  "acknowledged_exactly_while_the_newest_acknowledgement_is_in_force; all sequences of 4 (5) over 12 acknowledgement / result "
+                  "/ handler operations x kind). Flapping detection is modelled too (ring buffer, weights 0.8..1.18, hysteresis 25/30 %, "
+                  "exact integer arithmetic): flapping_ring_is_sliding_window proves it equal to a sliding window over the last 20 results, "
+                  "flapping_starts_only_on_state_change and stable_object_stops_flapping bound when FlappingStart/End can be due; the model's "
+                  "IsFlapping() before/after every accepted result is compared with the code's (MISMATCH op=FLAP). Unreachable-but-not-for-"
+                  "notifications is driven (second Dependency with disable_notifications off/on, all sequences of 3 (4) over 9 operations x "
+                  "kind x max x volatile x parent up/down)")
     level_note = ("Trusted: Lean kernel (+ propext, Classical.choice, Quot.sound), harness/driver; the environment facts IsInDowntime, "
-                  "IsAcknowledged, IsReachable, IsFlapping (the flapping formula is not modelled: the property takes the toggle as given), "
+                  "IsReachable (inputs read from the implementation; IsAcknowledged and IsFlapping are read too but checked against the "
+                  "modelled acknowledgement attributes / flapping ring buffer at every step; at an exact tie of the weighted flapping total "
+                  "with a threshold, where binary64 rounding decides in the code, the code's answer is adopted), "
                   "parent recovery, and the attribute values enable_active_checks / check_interval / next_check are inputs read from the "
                   "implementation (their own correctness is C04/C05/C06/C07). Model transcribes the code after the fix: commits for "
                   "F-C02a and F-C02b (known_findings.json, status fixed). F-C02c (known): a result processed between the handler's read "
                   "(checkable-notification.cpp:143) and write (:237-245) is lost; carried as handler_result_pair_partial + "
                   "handler_result_pair_counterexample, reproduced on the real code by corpus/C02/f_c02c_result_during_handler.ops.")
     trusted_base = [
-        "modelled, not verified: flapping formula, downtime/ack/reachability predicates (environment inputs), notification content (C03)",
+        "not modelled: downtime and reachability predicates (environment inputs read from the object; C05/C07), notification content (C03), "
+        "flapping_ignore_states (unset), non-default flapping thresholds",
+        "flapping arithmetic is exact in the model (hundredths) and binary64 in the code: equal away from exact ties (enumerated over all "
+        "2^20 windows for the default thresholds), at a tie the code's answer is taken",
+        "A! calls Checkable::AcknowledgeProblem() on an object that may be acknowledged already (the API action, the external commands "
+        "and the cluster handler test IsAcknowledged() first, the API action without a lock); times of acknowledgement operations are "
+        "the harness's integer virtual clock (non-decreasing)",
         "the harness recomputes 'a parent recovered since the last result' from public getters with the same formula as the code's lambda",
         "next_check is read from the object (its computation by UpdateNextCheck is C04's); times are integers in microseconds, the "
         "scheduling offset is fixed per case so that next_check is a function of the operations",
@@ -51,7 +76,8 @@ class C02(StdCheck):
             "lets the object settle and runs the handler directly and through the registered timer; x host/service x max 1..2 x volatile; plus "
             "the imminence sweep (check_interval in {0..3600} x next_check distance around 0, interval-10 and 60 s x active checks x withheld "
             "Problem/Recovery/nothing owed x kind), 48 handler-with-concurrent-result cases, seeded random interleavings of all fourteen "
-            "operation kinds (6000 / 60000 cases of up to 30 / 60 operations) and 1200 / 8000 flapping scenarios. evaluations = results + "
+            "operation kinds (now eighteen: + second dependency attach/detach/parent result, direct acknowledgement) (6000 / 60000 cases of up to 30 / 60 operations) and 1200 / 8000 flapping scenarios; plus the second-dependency block (9^3 / 9^4 sequences x disable_notifications x kind x max 1..2 x "
+            "volatile x parent up/down) and the acknowledgement block (12^4 / 12^5 sequences x kind). evaluations = results + "
             "handler runs; a case is non-trivial when it requested, withheld, released or dismissed a notification (counted by the Lean driver)")
 
     def matches_known(self, entry, finding):
@@ -89,6 +115,9 @@ NEGATIVE_CONTROLS = [
     "cleared before the notification is requested, flapping loop with continue-guards",
     "nc4_reason_helpers_and_texts (corpus/C02): NotificationReasonSuppressed as if-chain instead of switch (same evaluation order), "
     "IsLikelyToBeCheckedSoon's clamp via std::min/std::max, stale-result test with swapped operands and another log text",
+    "nc5_ack_and_reachability_spellings (corpus/C02): GetAcknowledgement with early returns and `now <= expiry`, AcknowledgeProblem "
+    "setting the expiry before the type, one GetAcknowledgement() call instead of two in ProcessCheckResult, the two reachability walks "
+    "swapped, suppress_notification with IsAcknowledged() evaluated first",
     "(DESIGN §5) neg_control_1/2: GetChildren() hoisted and aliased in ProcessCheckResult, WhileExpression's sandbox message reworded",
 ]
 
